@@ -643,7 +643,7 @@ func (w *responseWriter) synthesise(orig *dns.Msg) (*dns.Msg, error) {
 	// the A records carry — short-lived A records intentionally
 	// keep DNS64 answers short-lived too.
 	ttl := noSOATTLCeiling
-	if negTTL := negativeAAAATTL(orig); negTTL > 0 {
+	if negTTL, ok := negativeAAAATTL(orig); ok {
 		ttl = negTTL
 	}
 	for _, a := range addresses {
@@ -898,19 +898,21 @@ func isCachedFailureResponse(ctx context.Context, m *dns.Msg) bool {
 }
 
 // negativeAAAATTL returns the SOA-derived minimum negative TTL of
-// the original AAAA response, or 0 if no SOA is present. RFC 2308
-// — the negative TTL is min(SOA.MINIMUM, SOA.TTL).
-func negativeAAAATTL(m *dns.Msg) uint32 {
+// the original AAAA response, and whether an SOA is present at all.
+// RFC 2308 — the negative TTL is min(SOA.MINIMUM, SOA.TTL). A cached
+// NODATA in its last second is served with SOA TTL 0; that is a
+// lifetime of zero, not a missing SOA.
+func negativeAAAATTL(m *dns.Msg) (uint32, bool) {
 	for _, rr := range m.Ns {
 		if soa, ok := rr.(*dns.SOA); ok {
 			ttl := soa.Hdr.Ttl
 			if soa.Minttl > 0 && soa.Minttl < ttl {
 				ttl = soa.Minttl
 			}
-			return ttl
+			return ttl, true
 		}
 	}
-	return 0
+	return 0, false
 }
 
 // classifyQueryErr collapses queryer errors to a small label set so
